@@ -584,6 +584,35 @@ func (s *Sim) checkMemory() {
 // ---------------------------------------------------------------------------
 // Dump / load (C17)
 
+// sameDump compares two entity dumps: the same pool, the same set of alive IDs (their order
+// is the iteration order of the dumping world, which may differ), the same free list.
+func sameDump(a, b *ecs.EntityDump) string {
+	if len(a.Entities) != len(b.Entities) {
+		return fmt.Sprintf("%d pool entries vs %d", len(a.Entities), len(b.Entities))
+	}
+	for i := range a.Entities {
+		if a.Entities[i] != b.Entities[i] {
+			return fmt.Sprintf("pool entry %d is %v vs %v", i, a.Entities[i], b.Entities[i])
+		}
+	}
+	if a.Next != b.Next || a.Available != b.Available {
+		return fmt.Sprintf("next/available %d/%d vs %d/%d", a.Next, a.Available, b.Next, b.Available)
+	}
+	if len(a.Alive) != len(b.Alive) {
+		return fmt.Sprintf("%d alive IDs vs %d", len(a.Alive), len(b.Alive))
+	}
+	x := append([]uint32{}, a.Alive...)
+	y := append([]uint32{}, b.Alive...)
+	sort.Slice(x, func(i, j int) bool { return x[i] < x[j] })
+	sort.Slice(y, func(i, j int) bool { return y[i] < y[j] })
+	for i := range x {
+		if x[i] != y[i] {
+			return fmt.Sprintf("alive IDs differ: %d vs %d", x[i], y[i])
+		}
+	}
+	return ""
+}
+
 func (s *Sim) opDumpLoad(op *Op) {
 	if s.locked() {
 		s.skip(op)
@@ -644,6 +673,17 @@ func (s *Sim) opDumpLoad(op *Op) {
 			s.violate("C17", "dump.alive", "mismatch", false, "handle %v: alive=%v in the source world, %v after loading the dump", h, a, b)
 			return
 		}
+	}
+	// A world that loaded a dump dumps the same state again (dump -> load -> dump chains).
+	var d2 ecs.EntityDump
+	if p, val := s.call(func() { d2 = w2.Unsafe().DumpEntities() }); p {
+		s.violate("C17", "dump.chain", "panic", false, "DumpEntities of a world that loaded a dump panicked: %v", val)
+		return
+	}
+	s.C.Checks["dump.chain"]++
+	if msg := sameDump(&dump, &d2); msg != "" {
+		s.violate("C17", "dump.chain", "differs", false, "the dump of a world that loaded a dump differs from that dump: %s", msg)
+		return
 	}
 	if s.Flags.Trace {
 		return
